@@ -102,6 +102,27 @@ impl TokenCache {
         None
     }
 
+    /// Attempts to get a cached reader token that was issued by `manager`.
+    ///
+    /// The thread-local cache is shared by every manager used on the thread; a token cached
+    /// on behalf of another manager is left in place rather than served.
+    pub fn get_reader_token_for(&mut self, manager: &VersionManager) -> Option<ReaderToken> {
+        if self.cached_reader.as_ref().is_some_and(|t| !t.issued_by(manager)) {
+            self.stats.reader_cache_misses += 1;
+            return None;
+        }
+        self.get_reader_token()
+    }
+
+    /// Attempts to get a cached writer token that was issued by `manager`.
+    pub fn get_writer_token_for(&mut self, manager: &VersionManager) -> Option<WriterToken> {
+        if self.cached_writer.as_ref().is_some_and(|t| !t.issued_by(manager)) {
+            self.stats.writer_cache_misses += 1;
+            return None;
+        }
+        self.get_writer_token()
+    }
+
     /// Caches a reader token for future reuse.
     pub fn cache_reader_token(&mut self, token: ReaderToken) {
         self.cached_reader = Some(token);
@@ -265,7 +286,7 @@ impl TokenManager {
 
         // Try to get a cached token first
         let token = TOKEN_CACHE.with(|cache| {
-            cache.borrow_mut().get_reader_token()
+            cache.borrow_mut().get_reader_token_for(&self.version_manager)
         });
 
         let token = if let Some(cached_token) = token {
@@ -299,7 +320,7 @@ impl TokenManager {
 
         // Try to get a cached token first
         let token = TOKEN_CACHE.with(|cache| {
-            cache.borrow_mut().get_writer_token()
+            cache.borrow_mut().get_writer_token_for(&self.version_manager)
         });
 
         let token = if let Some(cached_token) = token {
